@@ -134,6 +134,39 @@ theorem finished_iff (tick k : Nat) : ∀ (sws : List Sw), (tickAll tick k sws).
         · exact h s hs hr hcl
       · intro h s hs hr hcl; exact h s (by simp [hs]) hr hcl
 
+/-- **An error is reported once**: the software whose Err aborts the step has lost its handle in the
+    resulting state (`running = false`), so by `no_repoll` no later step polls it or reports it again —
+    the simulation can be driven on after the error. -/
+theorem err_marks_finished (tick k : Nat) : ∀ (sws : List Sw), (tickAll tick k sws).2.2 = some .errSoftware →
+    ∃ (i : Nat) (s s' : Sw), sws[i]? = some s ∧ firesAt tick k s = true ∧ s.effective = .err ∧
+      (tickAll tick k sws).1[i]? = some s' ∧ s'.running = false
+  | [], h => by simp [tickAll] at h
+  | x :: rest, h => by
+    unfold tickAll at h ⊢
+    by_cases hx : x.running = true
+    · simp only [hx, Bool.not_true, Bool.false_eq_true, if_false] at h ⊢
+      by_cases hf : (x.finStep tick == x.ticks + 1 && x.effective != .never) = true
+      · simp only [hf, if_true] at h ⊢
+        have hfire : firesAt tick k x = true := by
+          unfold firesAt; simp only [hx, Bool.true_and]; exact hf
+        cases he : x.effective with
+        | ok =>
+          simp only [he] at h ⊢
+          obtain ⟨i, s, s', h1, h2, h3, h4, h5⟩ := err_marks_finished tick k rest h
+          exact ⟨i + 1, s, s', by rw [List.getElem?_cons_succ]; exact h1, h2, h3, by rw [List.getElem?_cons_succ]; exact h4, h5⟩
+        | err =>
+          simp only [he]
+          exact ⟨0, x, ({ x with running := false, ticks := x.ticks + 1 } : Sw), List.getElem?_cons_zero, hfire, he, List.getElem?_cons_zero, rfl⟩
+        | never => simp [he] at hf
+        | panic => simp [he] at h
+      · simp only [hf, Bool.false_eq_true, if_false] at h ⊢
+        obtain ⟨i, s, s', h1, h2, h3, h4, h5⟩ := err_marks_finished tick k rest h
+        exact ⟨i + 1, s, s', by rw [List.getElem?_cons_succ]; exact h1, h2, h3, by rw [List.getElem?_cons_succ]; exact h4, h5⟩
+    · have hx' : x.running = false := by simpa using hx
+      simp only [hx', Bool.not_false, if_true] at h ⊢
+      obtain ⟨i, s, s', h1, h2, h3, h4, h5⟩ := err_marks_finished tick k rest h
+      exact ⟨i + 1, s, s', by rw [List.getElem?_cons_succ]; exact h1, h2, h3, by rw [List.getElem?_cons_succ]; exact h4, h5⟩
+
 /-- what `tickAll` can return as an abort reason. -/
 def AbortOk (a : Option StepRes) : Prop := a = none ∨ a = some .errSoftware ∨ a = some .panic
 
